@@ -66,7 +66,8 @@ def cfgs(tier):
 
 
 def run(tier, seed, agg):
-    ccheck.run_cases(cfgs(tier), agg, seed)
+    # history-only events: now and then a consumer asks for a time behind its previous request; where the slot refuses that, nothing may change
+    ccheck.run_cases([dict(c, back_requests=True) for c in cfgs(tier)], agg, seed)
     acheck.run_cases(a_cases(tier), A_CLAUSES, agg, acheck.judge_valid, seed)
     return dict(
         level="model_checking",
